@@ -145,17 +145,25 @@ func (p *Parser) ParseWithRecovery(tokens []token.Token) ([]ast.Statement, []err
 
 // ParseWithRecoveryFromModelTokens parses tokenizer output with error recovery.
 func (p *Parser) ParseWithRecoveryFromModelTokens(tokens []models.TokenWithSpan) ([]ast.Statement, []error) {
-	converted, err := convertModelTokens(tokens)
+	// Keep the source positions of the tokens so that every ParseError carries
+	// the line and column at which it was detected (diagnostics need them).
+	converted, err := convertModelTokensWithPositions(tokens)
 	if err != nil {
 		return nil, []error{fmt.Errorf("token conversion failed: %w", err)}
 	}
-	return p.parseWithRecovery(converted)
+	return p.parseWithRecoveryAt(converted.Tokens, converted.PositionMapping)
 }
 
 // parseWithRecovery is the internal implementation shared by both public APIs.
 func (p *Parser) parseWithRecovery(tokens []token.Token) ([]ast.Statement, []error) {
+	return p.parseWithRecoveryAt(tokens, nil)
+}
+
+// parseWithRecoveryAt is parseWithRecovery with an optional position mapping
+// for the tokens (nil when the caller has none).
+func (p *Parser) parseWithRecoveryAt(tokens []token.Token, positions []TokenPosition) ([]ast.Statement, []error) {
 	p.tokens = tokens
-	p.positions = nil // no position mapping for this input (may be left from ParseWithPositions)
+	p.positions = positions // nil: no position mapping for this input
 	p.currentPos = 0
 	if len(tokens) > 0 {
 		p.currentToken = tokens[0]
